@@ -177,6 +177,9 @@ def order_oracles(ev, n, per, quotas=None):
     return bad
 
 
+DRAIN = ('drain', 'drainlast')
+
+
 def run_one(impl, cfg, timeout=120, env=None):
     line = '%s %d %d %d %d %d %d %d' % (cfg['mode'], cfg['n'], cfg['per'], cfg['seed'], cfg['perturb'], cfg['sinkdelay'], cfg.get('stall', 0), cfg.get('tfmt', 0))
     env = dict(env or {})
@@ -201,9 +204,9 @@ def special_configs(chk, reps):
     """a sink that logs from the logger thread while a backlog is queued; a producer logging while resetOwnThread() drains"""
     cfgs = []
     for _ in range(reps):
-        for mode, n, per in (('relog', 2, 300), ('relog', 4, 150), ('drain', 2, 15)):
+        for mode, n, per in (('relog', 2, 300), ('relog', 4, 150), ('drain', 2, 15), ('drainlast', 2, chk.rng.choice([1, 2, 3]))):
             cfgs.append({'mode': mode, 'n': n, 'per': per, 'seed': chk.rng.randrange(1, 2 ** 31), 'perturb': chk.rng.choice([0, 1]),
-                         'sinkdelay': 1 if mode == 'relog' else 0, 'stall': 0, 'tz': '', 'tfmt': 1 if mode == 'drain' else 0})
+                         'sinkdelay': 1 if mode == 'relog' else 0, 'stall': 400 if mode == 'drainlast' else 0, 'tz': '', 'tfmt': 1 if mode in DRAIN else 0})
     return cfgs
 
 
@@ -227,7 +230,7 @@ def evaluate(chk, model, cfg, res, stats, report):
     n, per, mode = cfg['n'], cfg['per'], cfg['mode']
     mq = re.search(r'quotas=([\d,]+)', hdr or '')
     quotas = [int(x) for x in mq.group(1).split(',')] if mq else [per] * n
-    cmode = 'logger' if mode == 'relog' else ('bare' if mode == 'drain' else mode)      # how the twin records were made
+    cmode = 'logger' if mode == 'relog' else ('bare' if mode in DRAIN else mode)      # how the twin records were made
     if rc != 0 or hdr is None or 'AddressSanitizer' in err or 'runtime error' in err:
         kind = 'hang' if rc == 124 else ('sanitizer' if ('AddressSanitizer' in err or 'runtime error' in err) else 'crash')
         stats['kinds'][kind] = stats['kinds'].get(kind, 0) + 1
@@ -246,17 +249,18 @@ def evaluate(chk, model, cfg, res, stats, report):
                    dict(cfg, kind='nested_pipeline', depth=int(mn.group(1)), header=hdr), 'nested_pipeline')
     # --- a producer logging while resetOwnThread() drains the backlog behind a slow sink
     mc = re.search(r'maxcall_us=(\d+)', hdr)
-    if mode == 'drain' and mc:
+    if mode in DRAIN and mc:
         stats['drain_runs'] += 1
         stats['max_call_ms_during_drain'] = max(stats['max_call_ms_during_drain'], int(mc.group(1)) // 1000)
         stats['max_backlog_ms_at_reset'] = max(stats['max_backlog_ms_at_reset'], quotas[0] * (cfg.get('stall') or 100))
         if int(mc.group(1)) > 500000:
             stats['kinds']['blocked_on_sink'] = stats['kinds'].get('blocked_on_sink', 0) + 1
-            report('a logging call made 200 ms after resetOwnThread() began took %d ms: it waited until the slow sink (%d ms per message) had '
-                   'drained the %d queued messages' % (int(mc.group(1)) // 1000, cfg.get('stall') or 100, quotas[0]),
-                   dict(cfg, kind='blocked_on_sink', scenario='drain', max_call_ms=int(mc.group(1)) // 1000, queued=quotas[0], header=hdr), 'blocked_on_sink')
+            report('a logging call made %s after resetOwnThread() began took %d ms: it waited until the slow sink (%d ms per message) had '
+                   'drained the %d queued messages' % ('200 ms' if mode == 'drain' else 'while the sink was inside the last queued message,',
+                                                       int(mc.group(1)) // 1000, cfg.get('stall') or 100, quotas[0]),
+                   dict(cfg, kind='blocked_on_sink', scenario=mode, max_call_ms=int(mc.group(1)) // 1000, queued=quotas[0], header=hdr), 'blocked_on_sink')
     # --- the logging call never waits for a sink
-    if cfg.get('stall') and mc and mode != 'drain':
+    if cfg.get('stall') and mc and mode not in DRAIN:
         stats['stalled_sink_runs'] += 1
         stats['max_call_ms_while_sink_stalled'] = max(stats['max_call_ms_while_sink_stalled'], int(mc.group(1)) // 1000)
         if int(mc.group(1)) > cfg['stall'] * 1000 * 2 // 3:
@@ -427,7 +431,7 @@ def run():
                     'model_copies_compared': stats['model_copies'], 'model_vs_impl_disagreements': stats['model_disagreements'],
                     'traces_fed_to_acceptor': stats['acceptor_runs'], 'max_backlog_seen': stats['max_backlog'],
                     'runs_with_backlog_ge_2': stats['runs_with_backlog'],
-                    'mode_histogram': {m: sum(1 for c, _ in results if c['mode'] == m) for m in ('bare', 'logger', 'relog', 'drain')},
+                    'mode_histogram': {m: sum(1 for c, _ in results if c['mode'] == m) for m in ('bare', 'logger', 'relog', 'drain', 'drainlast')},
                     'producers_histogram': {str(n): sum(1 for c, _ in results if c['n'] == n) for n in (1, 2, 4, 8, 16)},
                     'sinkdelay_histogram': {str(d): sum(1 for c, _ in results if c['sinkdelay'] == d) for d in range(3)},
                     'fatal_level_messages': stats['fatal_msgs'], 'texts_with_embedded_NUL': stats['nul_texts'],
@@ -456,7 +460,7 @@ def replay(path):
     print('recorded:', r.get('kind'), r.get('detail') or r.get('fields'), {k: r.get(k) for k in ('synchronous', 'asynchronous') if k in r})
     for k in range(3):
         rc, hdr, ev, tw, asy, flushes, err = run_one(impl, cfg)
-        cm = 'logger' if cfg['mode'] == 'relog' else ('bare' if cfg['mode'] == 'drain' else cfg['mode'])
+        cm = 'logger' if cfg['mode'] == 'relog' else ('bare' if cfg['mode'] in DRAIN else cfg['mode'])
         diffs = [(p, i, [FIELDS[b] for b in content_diff(cm, tw[(p, i)], d, cfg['tfmt'])]) for _, p, i, _, d in asy if (p, i) in tw and content_diff(cm, tw[(p, i)], d, cfg['tfmt'])]
         if cfg['tfmt']:
             mt = re.search(r'tcal=(-?\d+)', hdr or '')
